@@ -11,6 +11,49 @@ use crate::engine::ExecResult;
 use crate::rng::{Fnv, Rng};
 use crate::sess::{Sess, SimImporter};
 
+thread_local! {
+    /// "unit mode" of the current trace: elements are lengths written in two different units
+    /// (`3 m` / `300 cm`), i.e. values that are `==` for numbat but print differently
+    static UNITS: std::cell::Cell<bool> = const { std::cell::Cell::new(false) };
+}
+
+fn units_mode() -> bool {
+    UNITS.with(|u| u.get())
+}
+
+/// Element text. Unit mode: x >= 0 is `x m`, x < 0 is `-x cm`.
+fn el(x: i64) -> String {
+    if !units_mode() {
+        x.to_string()
+    } else if x >= 0 {
+        format!("{x} m")
+    } else {
+        format!("{} cm", -x)
+    }
+}
+
+/// Physical value (in cm) of a unit-mode element; equality of numbat quantities is by this.
+fn phys(x: i64) -> i64 {
+    if !units_mode() {
+        x
+    } else if x >= 0 {
+        x * 100
+    } else {
+        -x
+    }
+}
+
+/// The same length written in the other unit (if it can be written exactly).
+fn twin(x: i64) -> i64 {
+    if x > 0 {
+        -(x * 100)
+    } else if x < 0 && (-x) % 100 == 0 {
+        (-x) / 100
+    } else {
+        x
+    }
+}
+
 pub struct InterpWorker {
     pub importer: SimImporter,
     base: Option<Sess>,
@@ -26,7 +69,7 @@ impl InterpWorker {
     pub fn base(&mut self) -> Result<Sess, String> {
         if self.base.is_none() {
             let mut s = Sess::new(self.importer.clone());
-            let o = s.submit("use core::lists\nfn vf_inc(x) = x + 1\nfn vf_odd(x) = mod(x, 2) == 1");
+            let o = s.submit("use core::lists\nuse units::si\nfn vf_inc(x) = x + 1\nfn vf_odd(x) = mod(x, 2) == 1");
             if !o.is_ok() {
                 return Err(format!("could not load core::lists: {}", o.full_text()));
             }
@@ -159,13 +202,13 @@ fn render_list(e: &Value) -> String {
             a[1].as_array()
                 .unwrap()
                 .iter()
-                .map(|x| x.as_i64().unwrap().to_string())
+                .map(|x| el(x.as_i64().unwrap()))
                 .collect::<Vec<_>>()
                 .join(", ")
         ),
         "var" => a[1].as_str().unwrap().to_string(),
-        "cons" => format!("cons({}, {})", n(1), r(2)),
-        "cons_end" => format!("cons_end({}, {})", n(1), r(2)),
+        "cons" => format!("cons({}, {})", el(n(1)), r(2)),
+        "cons_end" => format!("cons_end({}, {})", el(n(1)), r(2)),
         "tail" => format!("tail({})", r(1)),
         "concat" => format!("concat({}, {})", r(1), r(2)),
         "take" => format!("take({}, {})", n(1), r(2)),
@@ -176,20 +219,20 @@ fn render_list(e: &Value) -> String {
         "filter_odd" => format!("filter(vf_odd, {})", r(1)),
         "sort" => format!("sort({})", r(1)),
         "unique" => format!("unique({})", r(1)),
-        "intersperse" => format!("intersperse({}, {})", n(1), r(2)),
+        "intersperse" => format!("intersperse({}, {})", el(n(1)), r(2)),
         "if_empty" => format!("(if is_empty({}) then {} else {})", r(1), r(2), r(3)),
         _ => "[]".into(),
     }
 }
 
 fn fmt_list(v: &[i64]) -> String {
-    format!(
-        "[{}]",
-        v.iter().map(|x| x.to_string()).collect::<Vec<_>>().join(", ")
-    )
+    format!("[{}]", v.iter().map(|x| el(*x)).collect::<Vec<_>>().join(", "))
 }
 
 fn gen_list_expr(rng: &mut Rng, vars: &[String], depth: u32, next_val: &mut i64) -> Value {
+    if units_mode() {
+        return gen_list_expr_units(rng, vars, depth, next_val);
+    }
     let leaf = depth == 0 || rng.chance(0.25);
     if leaf {
         if !vars.is_empty() && rng.chance(0.65) {
@@ -238,7 +281,60 @@ fn gen_list_expr(rng: &mut Rng, vars: &[String], depth: u32, next_val: &mut i64)
     }
 }
 
+thread_local! {
+    /// elements that exist (or existed) in the session being generated: candidates for twins
+    static POOL: std::cell::RefCell<Vec<i64>> = const { std::cell::RefCell::new(Vec::new()) };
+}
+
+/// Unit mode: structural operations only (elements are lengths in two units), and 40 % of the
+/// new elements are the twin (`3 m` vs `300 cm`) of an element that already exists somewhere.
+fn gen_list_expr_units(rng: &mut Rng, vars: &[String], depth: u32, next_val: &mut i64) -> Value {
+    let mut new_elem = |rng: &mut Rng, nv: &mut i64| -> i64 {
+        let pool: Vec<i64> = POOL.with(|p| p.borrow().clone());
+        let v = if !pool.is_empty() && rng.chance(0.4) {
+            twin(*rng.pick(&pool))
+        } else {
+            *nv += 1;
+            if rng.chance(0.3) { -(*nv * 100) } else { *nv }
+        };
+        POOL.with(|p| p.borrow_mut().push(v));
+        v
+    };
+    let leaf = depth == 0 || rng.chance(0.25);
+    if leaf {
+        if !vars.is_empty() && rng.chance(0.7) {
+            return json!(["var", rng.pick(vars)]);
+        }
+        let n = rng.range(1, 4);
+        let vals: Vec<i64> = (0..n).map(|_| new_elem(rng, next_val)).collect();
+        return json!(["lit", vals]);
+    }
+    let sub = |rng: &mut Rng, nv: &mut i64| gen_list_expr_units(rng, vars, depth - 1, nv);
+    match rng.below(16) {
+        0..=4 => {
+            let e = sub(rng, next_val);
+            json!(["cons", new_elem(rng, next_val), e])
+        }
+        5..=6 => {
+            let e = sub(rng, next_val);
+            json!(["cons_end", new_elem(rng, next_val), e])
+        }
+        7..=10 => json!(["tail", sub(rng, next_val)]),
+        11 => json!(["concat", sub(rng, next_val), sub(rng, next_val)]),
+        12 => json!(["take", rng.range(0, 4), sub(rng, next_val)]),
+        13 => json!(["drop", rng.range(0, 4), sub(rng, next_val)]),
+        14 => json!(["reverse", sub(rng, next_val)]),
+        _ => {
+            let e = sub(rng, next_val);
+            json!(["intersperse", new_elem(rng, next_val), e])
+        }
+    }
+}
+
 pub fn generate(rng: &mut Rng) -> Value {
+    let units = rng.chance(0.4);
+    UNITS.with(|u| u.set(units));
+    POOL.with(|p| p.borrow_mut().clear());
     let n_steps = rng.range(4, 24) as usize;
     let mut steps = vec![];
     // per live session: names of its list globals
@@ -280,7 +376,11 @@ pub fn generate(rng: &mut Rng) -> Value {
             let vars: Vec<String> = sessions[s].as_ref().unwrap().keys().cloned().collect();
             let depth = rng.range(0, 3) as u32;
             let e = gen_list_expr(rng, &vars, depth, &mut next_val);
-            let kind = *rng.pick(&["head", "len", "sum", "eq", "element_at"]);
+            let kind = if units {
+                *rng.pick(&["head", "len", "eq", "element_at"])
+            } else {
+                *rng.pick(&["head", "len", "sum", "eq", "element_at"])
+            };
             let mut st = json!({"op": "observe", "session": s, "kind": kind, "expr": e});
             if kind == "eq" {
                 st["other"] = gen_list_expr(rng, &vars, depth, &mut next_val);
@@ -291,7 +391,8 @@ pub fn generate(rng: &mut Rng) -> Value {
             steps.push(st);
         }
     }
-    json!({"format": 1, "property": "C18", "level": "interp", "steps": steps})
+    UNITS.with(|u| u.set(false));
+    json!({"format": 1, "property": "C18", "level": "interp", "units": units, "steps": steps})
 }
 
 fn count_vars(e: &Value, out: &mut Vec<String>) {
@@ -316,6 +417,11 @@ pub fn exec(w: &mut InterpWorker, trace: &Value, res: &mut ExecResult) {
     struct S {
         sess: Sess,
         env: BTreeMap<String, Vec<i64>>,
+    }
+    let units = trace["units"].as_bool().unwrap_or(false);
+    UNITS.with(|u| u.set(units));
+    if units {
+        res.bump("interp.runs_with_equal_but_distinct_elements");
     }
     let mut sessions: Vec<Option<S>> = vec![Some(S {
         sess: base,
@@ -376,7 +482,7 @@ pub fn exec(w: &mut InterpWorker, trace: &Value, res: &mut ExecResult) {
                     match st["kind"].as_str().unwrap_or("len") {
                         "head" => (
                             format!("print(head({text_e}))"),
-                            model.clone().and_then(|v| v.first().map(|x| x.to_string()).ok_or(())),
+                            model.clone().and_then(|v| v.first().map(|x| el(*x)).ok_or(())),
                         ),
                         "len" => (
                             format!("print(len({text_e}))"),
@@ -391,7 +497,7 @@ pub fn exec(w: &mut InterpWorker, trace: &Value, res: &mut ExecResult) {
                             (
                                 format!("print(element_at({i}, {text_e}))"),
                                 model.clone().and_then(|v| {
-                                    v.get(i as usize).map(|x| x.to_string()).ok_or(())
+                                    v.get(i as usize).map(|x| el(*x)).ok_or(())
                                 }),
                             )
                         }
@@ -403,7 +509,14 @@ pub fn exec(w: &mut InterpWorker, trace: &Value, res: &mut ExecResult) {
                             (
                                 format!("print({text_e} == {})", render_list(o)),
                                 match (model.clone(), m2) {
-                                    (Ok(a), Ok(b)) => Ok((a == b).to_string()),
+                                    (Ok(a), Ok(b)) => {
+                                        let pa: Vec<i64> = a.iter().map(|x| phys(*x)).collect();
+                                        let pb: Vec<i64> = b.iter().map(|x| phys(*x)).collect();
+                                        if pa == pb && a != b {
+                                            res.bump("probe.interp_eq_of_equal_but_distinct_lists");
+                                        }
+                                        Ok((pa == pb).to_string())
+                                    }
                                     _ => Err(()),
                                 },
                             )
@@ -499,6 +612,7 @@ pub fn exec(w: &mut InterpWorker, trace: &Value, res: &mut ExecResult) {
             break;
         }
     }
+    UNITS.with(|u| u.set(false));
     res.fingerprint = fp.0;
     res.nontrivial = nontrivial;
 }
